@@ -79,13 +79,16 @@ LEVEL_TEXT = ('Machine-checked theorems, stated about the functions regenerated 
               'executable judge accepts every trace of the regenerated pipeline; what an ordinary view body raised is what '
               'reaches exception handling (raising-site judge, proved at full strength incl. bodies raising '
               'PredicateMismatch); a subrequest without use_tweens=True hands its exception to the caller unrendered '
-              '(default of use_tweens regenerated = False; refuted for a default of True).')
+              '(default of use_tweens regenerated = False; refuted for a default of True); end to end: the trace computed '
+              'from the regenerated functions and constants is accepted by the whole judge (rendering + raising site), '
+              'ordinary and subrequest scenarios.')
 LEVEL_NOTE = ('Trusted: Coq kernel; the translator\'s primitive table and statement subset (fail-closed); the reference '
               'model for the parts that are not regenerated (shape-pinned); the C03 model; Python harness; zope.interface as '
               'oracle. The specificity theorems inherit C03\'s hypotheses (equal (slot, phash) => equal order and predicate '
               'texts -- checked by an executable premise on every generated world; duplicate-free resolution orders; no '
               'accept= for the judge theorem); the rendering-judge theorems assume no view body raises PredicateMismatch '
-              '(the raising-site theorems do not).')
+              '(the raising-site theorems do not) -- localised: only the views the lookups of the request select must '
+              'not raise it (C14_judge_accepts_model_local_partial).')
 
 ISA_NAMES = ['BaseException', 'Exception', 'HTTPNotFound', 'PredicateMismatch', 'HTTPForbidden']   # + pseudo 'truthy'
 EXC_CLASSES = ['E0', 'E1', 'E2', 'F0', 'D', 'K', 'NF', 'FB', 'BR', 'PM', 'MyNF', 'HE', 'WX', 'BE', 'G1', 'G2', 'DD', 'FZ', 'EL', 'NA']
